@@ -77,12 +77,17 @@ pub fn judge(case: &Case) -> Verdict {
 
 pub fn run(ctx: &Ctx, rep: &mut Report) {
     if let Some((k, n)) = ctx.shard {
-        super::history::sharded_pairs(rep, 5, false, ctx.tier.thorough(), k, n);
+        super::history::sharded_pairs(rep, 5, false, ctx.tier.thorough(), ctx.lean, k, n);
         return;
     }
     let o = oracle();
     let d = deck();
-    let perms: Vec<[usize; 5]> = permutations(5).into_iter().map(|p| [p[0], p[1], p[2], p[3], p[4]]).collect();
+    let mut perms: Vec<[usize; 5]> = permutations(5).into_iter().map(|p| [p[0], p[1], p[2], p[3], p[4]]).collect();
+    if ctx.lean {
+        // lean run (unoptimised crate): five spread-out slot orders instead of all 120
+        perms = vec![perms[0], perms[119], perms[33], perms[71], perms[101]];
+    }
+    let np = perms.len() as u64;
     let n_entries = if ctx.tier.thorough() { 6 } else { 3 };
     let thorough = ctx.tier.thorough();
     let mut parts = Vec::new();
@@ -107,9 +112,11 @@ pub fn run(ctx: &Ctx, rep: &mut Report) {
                     monitor::beat(kind, &[w[0] as u64, w[1] as u64, w[2] as u64, w[3] as u64, w[4] as u64]);
                     let r = guard(|| {
                         let mut bad = false;
-                        for p in &perms {
+                        for (pi2, p) in perms.iter().enumerate() {
                             let arr = [w[p[0]], w[p[1]], w[p[2]], w[p[3]], w[p[4]]];
                             let f = Five::from(arr);
+                            // the same ranking with the hand stored at each of the four 4-byte placements in turn
+                            bad |= super::hands::at_offset(pi2, f, |x| x.hand_rank_value()) != exp;
                             bad |= f.hand_rank_value() != exp;
                             bad |= f.hand_rank_value_validated() != exp;
                             bad |= ckc_rs::evaluate::five_cards(arr) != exp;
@@ -121,8 +128,8 @@ pub fn run(ctx: &Ctx, rep: &mut Report) {
                         }
                         (bad, Five::from(w).hand_rank_value())
                     });
-                    acc.cases += 120;
-                    acc.calls += 120 * n_entries as u64;
+                    acc.cases += np;
+                    acc.calls += np * n_entries as u64;
                     acc.hist[key_cat(o.key5(&cs)) as usize] += 1;
                     hits[exp as usize].fetch_add(1, Relaxed);
                     match r {
@@ -165,7 +172,7 @@ pub fn run(ctx: &Ctx, rep: &mut Report) {
     let mut acc = Acc::merged(accs);
     // every ordered array is a distinct input of the property's domain
     acc.nontrivial = acc.cases;
-    rep.add_space("5H x 120 orders x entry points", &acc, t0, "all 2,598,960 five-card subsets, every slot order, every entry point");
+    rep.add_space(if ctx.lean { "5H x 5 orders x entry points (lean)" } else { "5H x 120 orders x entry points" }, &acc, t0, "all 2,598,960 five-card subsets, every slot order, every entry point");
     rep.hist_named("hands_by_category:", &CAT_NAME, &acc.hist);
     let cat_ok = (0..9).all(|c| acc.hist[c] == HANDS5_PER_CAT[c]);
     rep.guard("category histogram equals the combinatorial constants", cat_ok, format!("{:?}", &acc.hist[..9]));
@@ -177,6 +184,39 @@ pub fn run(ctx: &Ctx, rep: &mut Report) {
         // surjectivity, checked directly on what the crate returned
         let surj = (1..=7462).all(|v| observed[v].load(Relaxed) > 0) && distinct_obs == 7462;
         rep.guard("observed values are exactly 1..=7462", surj, format!("{} distinct values observed", distinct_obs));
+    }
+    {
+        // configuration: a host that logs at Trace level - every hand once (canonical order) through every entry point
+        let t1 = Instant::now();
+        let was = monitor::trace_logging();
+        monitor::set_trace_logging(true);
+        let accs = par_parts(parts.len(), |pi| {
+            let (a, b) = parts[pi];
+            let mut acc = Acc::new(1);
+            for c in b + 1..50 {
+                for dd in c + 1..51 {
+                    for e in dd + 1..52 {
+                        let cs = [d[a], d[b], d[c], d[dd], d[e]];
+                        let exp = o.ord5(&cs);
+                        let w = [cs[0].word(), cs[1].word(), cs[2].word(), cs[3].word(), cs[4].word()];
+                        acc.cases += 1;
+                        acc.calls += ENTRIES.len() as u64;
+                        acc.nontrivial += 1;
+                        for entry in ENTRIES {
+                            if !matches!(guard(|| call_entry(entry, w)), Ok(Some(v)) if v == exp) {
+                                let mut v = confirm_mismatch(judge, Case::w32(entry, &w));
+                                v.observed.push_str(" [with a Trace-level logger installed]");
+                                acc.violate(v);
+                            }
+                        }
+                    }
+                }
+            }
+            acc
+        });
+        monitor::set_trace_logging(was);
+        let acc = Acc::merged(accs);
+        rep.add_space("5H canonical x entry points, host logging at Trace level", &acc, t1, "every five-card subset once more with a Trace-level logger installed");
     }
     {
         // representative cases through the canonical judge, in all ordered pairs (also audits the judge itself)
